@@ -74,7 +74,8 @@ def check(index, ctx):
             targets = sorted({a for e in gw for a in e["target"]})
             checks = [e for e in _pipe.evs(res, "expects_grad_check") if e["seq"] < first["seq"] and not (set(e["loops"]) & set(first["loops"]))]
             covered = {a for e in checks for a in (e["target"] or [])}
-            missing = [a for a in targets if a not in covered]
+            # discovered leaves are leaf tensors requiring grad by construction (AccumulateGrad.variable): their check cannot fail
+            missing = [a for a in targets if a not in covered and not a.startswith("leaves(")]
             k = f"{run.label}: every written parameter collection was validated before the first write"
             ctx.require(not missing, "R3", k if not missing else f"{run.entry}: parameters {missing} are validated only after .grad writes have begun",
                         f"collections {targets} all checked (in completed loops) before {first['loc']}",
@@ -84,4 +85,5 @@ def check(index, ctx):
     ctx.extra["rejection_inventory"] = inventory
     ctx.floor("argument-rejection paths inspected", n_rej, 30)
     _pipe.common_evidence(ctx, index)
+    ctx.assumptions.append("tensors found by leaf discovery are leaves requiring grad, so only explicitly listed parameters can be rejected by the expects-grad check")
     ctx.assumptions.append("rejections inside mtl_backward's aggregator call happen after the task parameters were accumulated by design; the statement covers the aggregator only for backward")
